@@ -25,6 +25,7 @@ DIGEST_POST = "is_digest_text(result, fmt_of(self), self.hasher.absorbed)"
 # abstract method: the contract every implementation must satisfy (behavioural subtyping); body is `pass`
 contract(
     "ascmhl.hasher.Hasher.string_digest",
+    slices=4,
     trusted=True,
     note="abstract method; implementations HexHasher.string_digest and C4.string_digest are verified against the same clauses",
     returns="str",
@@ -97,6 +98,7 @@ contract(
 DEC_POST = "result == dec_digest(fmt_of(cls), hash_string)"
 contract(
     "ascmhl.hasher.Hasher.bytes_from_string_digest",
+    slices=4,
     trusted=True,
     note="abstract classmethod; implementations HexHasher/C4.bytes_from_string_digest are verified against the same clauses",
     params={"hash_string": "str"},
